@@ -991,6 +991,50 @@ theorem json_table_roundtrip_text (t : Esc) (canon : List Char → Option (List 
   rw [hl]
   exact json_table_roundtrip canon tb hs
 
+theorem lexLines_rows (t : Esc) (canon : List Char → Option (List Char)) (h : List (List Char)) (w : List Char)
+    (hw : ∀ c ∈ w, c = '\n' ∨ c = '\r') (hk : ∀ k ∈ h, StrOK t k) (rows : List (List JVal))
+    (hv : ∀ r ∈ rows, ∀ v ∈ r, PrintableV t canon (toStructure v)) :
+    lexLines canon (rows.map fun r => encS t canon (rowObj h r) ++ w) = .ok (rows.map fun r => toksS (rowObj h r)) := by
+  induction rows with
+  | nil => rfl
+  | cons r rs ih =>
+    simp only [List.map_cons, lexLines]
+    rw [lex_encS_ws t canon _ (printable_rowObj t canon h r hk (hv r (by simp))) w hw,
+      ih (fun x hx => hv x (by simp [hx]))]
+
+/-- **Table round trip, JSON Lines, text to text** (line break LF or CR LF). -/
+theorem jsonl_table_roundtrip_text (t : Esc) (canon : List Char → Option (List Char)) (tb : Json.Table)
+    (hs : JsonSpellable canon tb) (ht : TextOK t canon tb) (lb : LB) (hlb : lb ≠ .cr) :
+    decodeJsonl canon (encodeJsonl t canon lb tb) = .ok (canonTable tb) := by
+  obtain ⟨hk, hv⟩ := ht
+  have henc : ∀ r ∈ tb.rows, encode t canon (rowObj tb.header r) = encS t canon (rowObj tb.header r) :=
+    fun r hr => encode_printable t canon _ (printable_rowObj t canon tb.header r hk (hv r hr))
+  have hnl : ∀ l ∈ tb.rows.map (fun r => encS t canon (rowObj tb.header r)), ∀ x ∈ l, x ≠ '\n' := by
+    intro l hl
+    obtain ⟨r, hr, rfl⟩ := List.mem_map.mp hl
+    exact encS_noLF t canon _ (printable_rowObj t canon tb.header r hk (hv r hr))
+  obtain ⟨cr, hcr⟩ : ∃ cr : Bool, lb.chars = (if cr then ['\r', '\n'] else ['\n']) := by
+    cases lb with
+    | lf => exact ⟨false, rfl⟩
+    | crlf => exact ⟨true, rfl⟩
+    | cr => exact absurd rfl hlb
+  have htext : encodeJsonl t canon lb tb
+      = ((tb.rows.map fun r => encS t canon (rowObj tb.header r)).map
+          fun l => l ++ (if cr then ['\r', '\n'] else ['\n'])).flatten := by
+    simp only [encodeJsonl, List.map_map, hcr]
+    congr 1
+    apply List.map_congr_left
+    intro r hr
+    simp [henc r hr]
+  have hw : ∀ c ∈ (if cr then ['\r', '\n'] else ['\n']), c = '\n' ∨ c = '\r' := by
+    cases cr <;> simp
+  unfold decodeJsonl
+  rw [htext, splitLines_lines _ cr hnl]
+  have := lexLines_rows t canon tb.header _ hw hk tb.rows hv
+  simp only [List.map_map, Function.comp_def]
+  rw [this]
+  exact jsonl_table_roundtrip canon tb hs
+
 end J
 
 /-! ## JSON: column names as paths into nested objects
@@ -1151,6 +1195,20 @@ theorem fixed_roundtrip_encoded (C : Codec) (hC : C.Sound) (wd : Char → Nat) (
   obtain ⟨txt, h1, h2⟩ := roundtrip_encoded C hC (Fixed.fileFixed wd o t) (Fixed.decodeFixed wd o P) b hw
   rw [h2]
   exact F.fixed_roundtrip_partial wd hwd hw1 o P t ho hs txt h1
+
+/-- JSON and JSON Lines, bytes to bytes, through any sound codec (csvq writes them in UTF-8) -/
+theorem json_roundtrip_encoded (C : Codec) (hC : C.Sound) (t : Json.Esc) (canon : List Char → Option (List Char))
+    (tb : Json.Table) (hs : J.JsonSpellable canon tb) (ht : J.TextOK t canon tb) (lb : LB) (hlb : lb ≠ .cr)
+    (b b' : List Nat) (hw : C.enc (Json.encodeJson t canon none tb) = some b)
+    (hw' : C.enc (Json.encodeJsonl t canon lb tb) = some b') :
+    readWith C (Json.decodeJson canon) b = .ok (Json.canonTable tb) ∧
+    readWith C (Json.decodeJsonl canon) b' = .ok (Json.canonTable tb) := by
+  constructor
+  · simp only [readWith, hC _ _ hw]
+    have := J.json_table_roundtrip_text t canon tb hs ht [] (by simp)
+    simpa using this
+  · simp only [readWith, hC _ _ hw']
+    exact J.jsonl_table_roundtrip_text t canon tb hs ht lb hlb
 
 /-- **UTF-8**, every text -/
 theorem utf8_roundtrip : (codec .utf8).Sound := by
